@@ -140,3 +140,11 @@ def _threads(series, extra):
         bounded=dict(bound='4 thread counts x 4 statement counts (up to 400; thorough: 5000) x backend sleeping / polling; one OS schedule per case', form='b'),
         dropped=[], trusted=['one OS schedule per case'], min_obligations=1, timeout=1500)
 UNITS += [_threads('unbounded blocking', []), _threads('bounded blocking', ['SERIES_BOUNDED'])]
+def _order(series, extra):
+        return dict(
+        name='BW.order_history[%s]' % series, primary='C05', props={'C05', 'C03'}, kind='L', funcs=[], enforce=None,
+        desc='global timestamp order through the real pipeline with three real frontend threads that log ON COMMAND (the enumeration chooses the interleaving of log calls and backend passes), a user clock handing out scripted timestamps and ManualBackendWorker passes: whatever the backend writes is the smallest timestamp among everything enqueued and unwritten; per-thread order; exactly once',
+        native=dict(cpp='order_history.cpp', file='include/quill/backend/BackendWorker.h', function='BackendWorker::{_poll,_populate_transit_events_from_frontend_queues,_process_lowest_timestamp_transit_event,has_pending_events_for_caching_when_transit_event_buffer_empty}', defs_quick=['LEN=5'] + extra, defs_thorough=['LEN=7'] + extra),
+        bounded=dict(bound='5 timestamp scripts x every history of <= 5 (thorough: 7) actions over {3 threads log, one pass, full drain}', form='b'),
+        dropped=[], trusted=['log calls and backend passes do not overlap in time (each action completes before the next starts): concurrent overlap is the contract units (BQ.*, UQ.*, LEM.order)'], min_obligations=1, timeout=1500)
+UNITS += [_order('default limits', []), _order('soft = hard limit = 2', ['SMALL_LIMITS'])]
